@@ -146,6 +146,73 @@ def clause_media(prog, rep):
     rep.floor("param-coverage", "HKDF expansions in encrypted_media", n, 1)
 
 
+BOUND_NAMES = ("scheme_version", "original_hash", "mime_type", "filename")
+
+
+def _binding_sig(prog, f, operand):
+    """copy-provenance signature of a value inside f: (own parameters it is a copy of, fields selected on the way, producing calls)"""
+    if "p" not in operand:
+        return ("const",), (), ()
+    names = param_names(f)
+    pr = A.producers(prog, f, operand["p"][0], scope=set(), max_frames=0)
+    fields = set(pr["fields"]) | set(e[1:] for e in operand["p"][1:] if isinstance(e, str) and e.startswith(".") and not e[1:].isdigit())
+    return (tuple(sorted(set(names.get(l, "arg%d" % l) for (g, l) in pr["params"] if g is f))), tuple(sorted(fields)),
+            tuple(sorted(set(c.name for c in pr["calls"]))))
+
+
+def clause_binding_agreement(prog, rep):
+    """within one function, the scheme version / content hash / MIME type / file name bound into the key, into the AAD and
+    into the published record are the same values: a raw parameter on one side and its canonicalised form (or another
+    field) on the other makes the key underivable from what the receiver is told"""
+    n = m = 0
+    for f in prog.nontest_fns(("mdk_core",)):
+        if "encrypted_media" not in f.path or f.is_closure() or f.derived:
+            continue
+        uses = {}
+        for c in f.live_calls():
+            ts = [t for t in prog.call_targets(c) if t.crate == "mdk_core" and "encrypted_media" in t.path and not t.is_closure()]
+            if not ts:
+                continue
+            pn = param_names(ts[0])
+            hit = [(i, pn[i]) for i in sorted(pn) if pn[i] in BOUND_NAMES]
+            if len(hit) < 2:
+                continue
+            for i, name in hit:
+                if i - 1 < len(c.args):
+                    uses.setdefault(name, []).append((c.name, _binding_sig(prog, f, c.args[i - 1]), c.loc()))
+        for bb, agg in f.aggregates():
+            if "encrypted_media" not in (agg.get("adt") or "") or not agg.get("fields"):
+                continue
+            for name in BOUND_NAMES:
+                o = A.agg_field_operand(agg, name)
+                if o is not None:
+                    uses.setdefault(name, []).append((last_seg(agg["adt"]) + "{}", _binding_sig(prog, f, o), f.loc()))
+        for name, us in sorted(uses.items()):
+            # decrypt side: a value taken from the parsed reference is the reference's field of the same name
+            for w, sig, loc in us:
+                if sig[0] and any("MediaReference" in f.locals[l] for l, pname in param_names(f).items() if pname in sig[0]):
+                    m += 1
+                    rep.check(sig[1] == (name,), "aead-siblings", "reference-field/%s/%s/%s" % (f.label(), w, name),
+                              "%s receives the reference's `%s` as its `%s`" % (w, name, name),
+                              "%s receives %s of the reference as its `%s`: the receiver derives the key / AAD from another field than the sender bound" % (w, sig[1], name), loc)
+            if len(us) < 2:
+                continue
+            n += 1
+            raw = set(bool(sig[0]) and not sig[1] for _, sig, _ in us)       # a bare copy of one of f's own parameters
+            flds = set(sig[1] for _, sig, _ in us if sig[1])
+            roots = set(sig[0] for _, sig, _ in us if sig[0])
+            good = len(raw) == 1 and len(flds) <= 1 and len(roots) <= 1
+            if good and flds:
+                good = all(name in fl for fl in flds)
+            desc = "; ".join("%s<-%s" % (w, "/".join(sig[0] + tuple("." + x for x in sig[1]) + tuple(x + "()" for x in sig[2])) or "?") for w, sig, _ in us)
+            rep.check(good, "aead-siblings", "binding-agreement/%s/%s" % (f.label(), name),
+                      "every use of `%s` in %s binds the same value (%s)" % (name, f.label(), desc),
+                      "`%s` is bound from different values in %s: %s — the key / associated data no longer match what is published for the receiver" % (name, f.label(), desc),
+                      us[0][2])
+    rep.floor("aead-siblings", "metadata values bound at two or more sites of one function", n, 4)
+    rep.floor("aead-siblings", "key / AAD arguments taken from a parsed MediaReference", m, 11)
+
+
 def clause_hash_check(prog, rep):
     """the decrypted bytes are returned only after their hash was compared with the announced one"""
     core = K.core_scope(prog)
@@ -289,11 +356,14 @@ def run(ctx, rep):
     rep.fns_analysed = len(K.core_scope(prog))
     rep.clause("C17.1 every parameter of the AAD builder and of the HKDF-context builder is bound into the returned bytes")
     rep.clause("C17.2 encrypt and decrypt use the same AAD builder with the same arguments and the same AEAD; the HKDF input is the exporter secret; unknown scheme versions are refused before derivation")
+    rep.clause("C17.2b inside each media function the scheme version, content hash, MIME type and file name handed to the key derivation, to the AAD and to the published record are the same values")
     rep.clause("C17.3 decrypted media bytes are returned only after their SHA-256 was compared with the announced hash, on every route from decrypt_from_download")
     rep.clause("C17.4 epoch hint provenance: stored Message.epoch is the sending epoch (decided under C02.4)")
     rep.clause("C17.5 group image: published blob hash compared before decryption; HKDF labels pairwise distinct")
     rep.not_decided = "AEAD/HKDF correctness, byte round-trips, MIME canonicalisation values"
     clause_media(prog, rep)
+    if prog.find(name="encrypt_data_with_aad", crate="mdk_core"):
+        clause_binding_agreement(prog, rep)
     clause_hash_check(prog, rep)
     clause_group_image(prog, rep)
     # C17.4 shares C02's clause
